@@ -29,7 +29,7 @@ THEOREMS = ["JanetModel.Props.C12." + t for t in (
     "replace_all_agrees_with_repeated_match", "replace_agrees_with_repeated_match", "match_attempt_end_in_range",
     "compile_validated_correct", "compiled_entry_points_eq_source",
     "compile_correct", "compile_entry_points_eq_source", "compile_simulation", "compile_entry_zero", "compile_entry_points_from_zero",
-    "backref_flag_unobservable", "backref_flag_unobservable_op", "compiled_backref_flag_certified", "compile_flag_sound", "compile_correct_real_flag", "op_run_keeps_window",
+    "backref_flag_unobservable", "backref_flag_unobservable_op", "compiled_backref_flag_certified", "compile_flag_sound", "compile_correct_real_flag", "op_run_keeps_window", "op_run_keeps_depth",
     "lenprefix_leak_breaks_op_eq_den", "decode_sizes_agree")]
 # facts about the CURRENT peg.c (Gen/Peg.lean) that the model relies on; they fail to check on a tree with the defects
 TIE = ["JanetModel.Peg.Tie." + t for t in (
@@ -40,7 +40,7 @@ CANON = os.path.join(VERIF, "harness", "C12", "case_canon.json")
 # to BE the Op.step case (semantic comparison, Peg/TieSkel.lean); every other case is compared in canonical form (CANON)
 TIESKEL = ["JanetModel.Peg.TieSkel." + t for t in (
     "rule_if", "rule_ifnot", "rule_not", "rule_drop", "rule_only_tags", "rule_sub", "rule_accumulate", "rule_capture",
-    "rule_position", "rule_constant", "rule_group", "rule_nth", "rule_error", "rule_between", "rule_to_thru", "rule_til", "rule_choice", "rule_sequence", "rule_lenprefix", "rule_split")]
+    "rule_position", "rule_constant", "rule_group", "rule_nth", "rule_error", "rule_between", "rule_to_thru", "rule_til", "rule_choice", "rule_sequence", "rule_lenprefix", "rule_split", "rule_replace", "rule_matchtime")]
 ENTRIES = ("match", "find", "findall", "replace", "replaceall")
 
 
